@@ -48,13 +48,19 @@ impl PatternNode {
   }
 
   pub fn fixed_string(&self) -> Cow<str> {
+    self.fixed_string_impl(false)
+  }
+
+  /// `named_only` ignores unnamed tokens, which looser strictness may skip
+  fn fixed_string_impl(&self, named_only: bool) -> Cow<str> {
     match &self {
+      PatternNode::Terminal { is_named, .. } if named_only && !*is_named => Cow::Borrowed(""),
       PatternNode::Terminal { text, .. } => Cow::Borrowed(text),
       PatternNode::MetaVar { .. } => Cow::Borrowed(""),
       PatternNode::Internal { children, .. } => {
         children
           .iter()
-          .map(|n| n.fixed_string())
+          .map(|n| n.fixed_string_impl(named_only))
           .fold(Cow::Borrowed(""), |longest, curr| {
             if longest.len() >= curr.len() {
               longest
@@ -156,8 +162,15 @@ impl<L: Language> Pattern<L> {
     kind_utils::is_error_kind(kind)
   }
 
+  /// A string that every source matched by this pattern must contain.
   pub fn fixed_string(&self) -> Cow<str> {
-    self.node.fixed_string()
+    match self.strictness {
+      // terminals are matched by kind only, their text is not compared
+      MatchStrictness::Signature => Cow::Borrowed(""),
+      // unnamed tokens in pattern can be skipped
+      MatchStrictness::Ast | MatchStrictness::Relaxed => self.node.fixed_string_impl(true),
+      MatchStrictness::Cst | MatchStrictness::Smart => self.node.fixed_string_impl(false),
+    }
   }
 
   /// Get all defined variables in the pattern.
